@@ -85,6 +85,13 @@ def _expand_once(reqs, threads=None, limit_ms=None):
     except subprocess.TimeoutExpired:
         raise ToolError("dx-expand did not finish within an hour")
     if p.returncode != 0:
+        # the observer died (a stack overflow or an abort inside an expansion cannot be caught): find the request by bisection
+        # and answer it with class "crash"; everything else is answered normally
+        if p.returncode < 0 or p.returncode in (134, 139):
+            if len(reqs) == 1:
+                return [{"id": reqs[0].get("id"), "class": "crash", "items": [], "det": None, "signal": p.returncode}]
+            mid = len(reqs) // 2
+            return _expand_once(reqs[:mid], threads, limit_ms) + _expand_once(reqs[mid:], threads, limit_ms)
         raise ToolError("dx-expand failed: " + p.stderr[-2000:])
     out = [json.loads(l) for l in p.stdout.splitlines() if l.strip()]
     if len(out) != len(reqs):
